@@ -352,9 +352,22 @@ func (c *wsConn) cancelCtx(req frame) {
 		return
 	}
 
+	if len(params) < 1 {
+		log.Errorf("%s: expected 1 param, got %d", wsCancel, len(params))
+		return
+	}
+
 	var id interface{}
 	if err := json.Unmarshal(params[0].data, &id); err != nil {
 		log.Error("handle me:", err)
+		return
+	}
+
+	// validate the id like any other id received from the wire; among other
+	// things this rejects arrays and objects, which can't be used as map keys
+	id, err := normalizeID(id)
+	if err != nil {
+		log.Errorf("%s: %s", wsCancel, err)
 		return
 	}
 
@@ -375,6 +388,11 @@ func (c *wsConn) handleChanMessage(frame frame) {
 	var params []param
 	if err := json.Unmarshal(frame.Params, &params); err != nil {
 		log.Error("failed to unmarshal channel id in xrpc.ch.val: %s", err)
+		return
+	}
+
+	if len(params) < 2 {
+		log.Errorf("%s: expected 2 params, got %d", chValue, len(params))
 		return
 	}
 
@@ -405,6 +423,11 @@ func (c *wsConn) handleChanClose(frame frame) {
 	var params []param
 	if err := json.Unmarshal(frame.Params, &params); err != nil {
 		log.Error("failed to unmarshal channel id in xrpc.ch.val: %s", err)
+		return
+	}
+
+	if len(params) < 1 {
+		log.Errorf("%s: expected 1 param, got %d", chClose, len(params))
 		return
 	}
 
